@@ -50,6 +50,7 @@ fn specials(len: u64) -> Vec<u64> { vec![0, 1, len, len.wrapping_add(1), len.wra
 impl Prop for C07 {
   type Case = Case;
   const ID: &'static str = "C07";
+  fn max_shrink_iters() -> u32 { 1000 }
   fn budget(t: Tier) -> u32 { t.pick(6_000, 120_000) }
   fn timeout_ms(_t: Tier) -> u64 { 10_000 }
   fn timeout_is_violation() -> bool { true }
